@@ -23,7 +23,7 @@ Follow == {"none", "set_other", "compact", "compact2", "plan_after", "set_back"}
 
 \* classes of text; "pad*" have surrounding whitespace
 Classes == {"ascii", "pad_space", "pad_tab_nl", "newlines", "crlf", "quotes", "control",
-            "html", "linesep", "astral", "combining", "nbsp_pad", "long64k", "html200k", "json_like", "over_limit", "unicode_blank", "long_multibyte"}
+            "html", "linesep", "astral", "combining", "nbsp_pad", "long64k", "html200k", "json_like", "over_limit", "unicode_blank", "long_multibyte", "near_limit"}
 Padded(c) == c \in {"pad_space", "pad_tab_nl"}
 
 \* the paths that exist: plan is JSON only and carries both fields; --body-stdin
@@ -41,25 +41,32 @@ MayTrim(m, c, f) == f = "title" /\ (m \in {"flags", "bodystdin"} \/ c = "set")
 Cases ==
   {[mode |-> m, cmd |-> c, field |-> f, class |-> k, follow |-> w] :
       m \in Modes, c \in Cmds, f \in Fields, k \in Classes, w \in Follow}
-RealCases == {x \in Cases : PathExists(x.mode, x.cmd, x.field)}
+\* "near_limit": bodies whose size is swept across the largest line the log format
+\* admits (whatever that is: the driver finds it by bisection)
+RealCases == {x \in Cases : /\ PathExists(x.mode, x.cmd, x.field)
+                            /\ (x.class = "near_limit" => x.field = "body" /\ x.follow \in {"none", "compact"})}
+Limit == {"over_limit", "near_limit"}
 
 \* the verdict on one observed round trip r = [case, rel, rel_after]
 C17_roundtrip(r) ==
   LET ok == IF MayTrim(r.case.mode, r.case.cmd, r.case.field) THEN {"equal", "trimmed"} ELSE {"equal"}
-  IN r.rel \in ok \/ (r.case.class \in {"over_limit", "unicode_blank"} /\ r.rel = "rejected")
+  IN r.rel \in ok \/ (r.case.class \in (Limit \cup {"unicode_blank"}) /\ r.rel = "rejected")
 C17_stays(r) == (r.rel \in {"equal", "trimmed"} /\ r.case.class # "over_limit") => r.rel_after = r.rel
 \* valid text is not refused (long inputs included): every class here is valid
 \* Unicode and not blank
 \* (the one class beyond what the log format admits - a line over the reader's
 \* limit - may be refused, but then nothing may have changed and the store must
 \* still be readable; if it is accepted it must round-trip like any other text)
-C17_accepted(r) == r.case.class \notin {"over_limit", "unicode_blank"} => r.rel # "rejected"
+C17_accepted(r) == r.case.class \notin (Limit \cup {"unicode_blank"}) => r.rel # "rejected"
 \* text that is nothing but (Unicode) whitespace may be refused; if it is taken it is
 \* stored like any other text, never replaced by something else
 C17_blank(r) == r.case.class = "unicode_blank" => r.rel \in {"rejected", "equal", "trimmed"}
-C17_overlimit(r) == r.case.class = "over_limit" =>
+C17_overlimit(r) == r.case.class \in Limit =>
                       /\ r.store_readable
                       /\ (r.rel = "rejected" => r.store_unchanged)
+
+\* C10 on the text paths: a refused command leaves no trace, whatever the text was
+C10_text_reject(r) == r.rel = "rejected" => (r.store_readable /\ r.store_unchanged)
 
 EmitCases == PrintT("@ST " \o ToJson(RealCases))
 =============================================================================
